@@ -2,6 +2,7 @@
   C11 — property theorems.
     spec, operators, checkers : ShelxModel/C11Core.lean       model of the code : ShelxModel/C11.lean
     tabulated settings        : ShelxModel/C11Table.lean      helper lemmas     : ShelxProps/Lemmas/C11Closed.lean
+    kernel evaluations over the table, in pieces that build in parallel: ShelxProps/Lemmas/C11Tab*.lean (spec), C11Mod*.lean (model)
     centring table of the code: ShelxModel/Extracted/Latt.lean (REGENERATED from cards.py on every run)
 
   expand_perm    ∀ N S, ValidSetting N S → the list the code builds is a permutation (mod ℤ³) of the space group
@@ -15,6 +16,10 @@
 import ShelxModel.C11
 import ShelxModel.C11Table
 import ShelxProps.Lemmas.C11Closed
+import ShelxProps.Lemmas.C11ModA
+import ShelxProps.Lemmas.C11ModB
+import ShelxProps.Lemmas.C11ModC
+import ShelxProps.Lemmas.C11ModD
 import Mathlib.Tactic.Ring
 import Mathlib.Tactic.Linarith
 import Mathlib.Tactic.Push
@@ -312,15 +317,26 @@ theorem expand_duplicates_outside_valid :
 
 /-! ### the tabulated settings -/
 
-/-- model side, evaluated in the kernel with the REGENERATED centring table: the expansion exists, has the number
-    of operators International Tables A give for the group, and no class twice -/
-def modelOK (e : Setting) : Bool :=
-  match expand e.N e.S with
-  | none => false
-  | some L => L.length == e.order && nodupB L
-
-set_option maxRecDepth 100000 in
-theorem settings_modelOK : settings.all modelOK = true := by decide +kernel
+/-- model side, evaluated in the kernel with the REGENERATED centring table (`modelOK`, ShelxModel/C11.lean: the
+    expansion exists, has the number of operators International Tables A give for the group, and no class twice);
+    the pieces `tabA … tabF` (ShelxProps/Lemmas/C11Mod*.lean) exhaust the table -/
+theorem settings_modelOK : ∀ e ∈ settings, modelOK e = true := by
+  intro e he
+  rcases mem_take_or_drop 30 he with h | h
+  · exact List.all_eq_true.mp tabA_modelOK e h
+  rcases mem_take_or_drop 7 h with h | h
+  · exact List.all_eq_true.mp tabB_modelOK e h
+  rw [List.drop_drop] at h
+  rcases mem_take_or_drop 3 h with h | h
+  · exact List.all_eq_true.mp tabC_modelOK e h
+  rw [List.drop_drop] at h
+  rcases mem_take_or_drop 1 h with h | h
+  · exact List.all_eq_true.mp tabD_modelOK e h
+  rw [List.drop_drop] at h
+  rcases mem_take_or_drop 1 h with h | h
+  · exact List.all_eq_true.mp tabE_modelOK e h
+  rw [List.drop_drop] at h
+  exact List.all_eq_true.mp tabF_modelOK e h
 
 /-- **tabulated_settings_valid_and_closed** — for each of the 43 tabulated space-group settings: it is a valid
     setting; its spec list is closed under composition mod ℤ³ and has the order of the group (ITA); the model's
@@ -331,9 +347,9 @@ theorem tabulated_settings_valid_and_closed : ∀ e ∈ settings,
     ∃ L, expand e.N e.S = some L ∧ L.length = e.order ∧ (L.map cls).Nodup ∧ Closed L ∧
       L.map cls ~ (fullGroup e.N e.S).map cls := by
   intro e he
-  obtain ⟨hv, hc, _⟩ := specOK_sound e (settings_specOK e he)
+  obtain ⟨hv, hc, _⟩ := settings_spec e he
   obtain ⟨L, hL, hp⟩ := expand_perm e.N e.S hv
-  have hm := List.all_eq_true.mp settings_modelOK e he
+  have hm := settings_modelOK e he
   simp only [modelOK, hL, Bool.and_eq_true, beq_iff_eq] at hm
   exact ⟨hv, hc, L, hL, hm.1, nodupB_sound L hm.2, closed_of_perm hp hc, hp⟩
 
